@@ -6,7 +6,8 @@ use verif_model::elfw as m;
 use verif_model::filegen::{self, FileSpec, Seg};
 use verif_model::refs;
 
-fn compare<'a, E: EndianParse>(it: NoteIterator<'a, E>, data: &'a [u8], le: bool, align: u64, obs: &mut Obs, via: &str) -> Result<(usize, bool), String> {
+fn compare<'a, E: EndianParse>(mk: impl Fn() -> NoteIterator<'a, E>, data: &'a [u8], le: bool, align: u64, obs: &mut Obs, via: &str) -> Result<(usize, bool), String> {
+    let it = mk();
     let (want, ambiguous) = refs::walk_notes(le, align, data);
     let ctx = |k: usize| format!("{} align={} data[{}]={} : item #{}", via, align, data.len(), hex(&data[..data.len().min(96)]), k);
     let base = data.as_ptr() as usize;
@@ -71,6 +72,45 @@ fn compare<'a, E: EndianParse>(it: NoteIterator<'a, E>, data: &'a [u8], le: bool
         } else {
             return Err(format!("{}: iterator stopped after {} items, the reference walk has {} records (next: type {} name {:?} desc {:?})", ctx(k), k, want.len(), r.n_type, r.name, r.desc));
         }
+    }
+    if !excluded && !ambiguous {
+        // the same sequence through the std iterator adaptors (an overridden nth/count/last/skip must agree with
+        // repeated next())
+        let all: Vec<Note<'a>> = mk().collect();
+        let n = all.len();
+        let fail = |what: String| Err(format!("{}: {}", ctx(0), what));
+        for j in [0usize, 1, 2, n.saturating_sub(1), n, n + 1] {
+            if mk().nth(j).as_ref() != all.get(j) {
+                return fail(format!("nth({}) on a fresh iterator returned {:?}; repeated next() gives {:?}", j, mk().nth(j), all.get(j)));
+            }
+            if mk().skip(j).next().as_ref() != all.get(j) {
+                return fail(format!("skip({}).next() returned {:?}; repeated next() gives {:?}", j, mk().skip(j).next(), all.get(j)));
+            }
+            let mut it = mk();
+            let first = it.next();
+            // (the iterator is not fused: it is not polled again once it has returned None)
+            if first.as_ref() != all.first() || (first.is_some() && it.nth(j).as_ref() != all.get(j + 1)) {
+                return fail(format!("next() then nth({}) does not give item #{}", j, j + 1));
+            }
+            let mut it = mk();
+            for _ in 0..j.min(n) {
+                it.next();
+            }
+            if it.count() != n - j.min(n) {
+                return fail(format!("count() after {} items is not {}", j.min(n), n - j.min(n)));
+            }
+        }
+        if mk().count() != n || mk().last().as_ref() != all.last() {
+            return fail(format!("count() = {} / last() = {:?}; repeated next() gives {} items, last {:?}", mk().count(), mk().last(), n, all.last()));
+        }
+        let stepped: Vec<Note<'a>> = mk().step_by(2).collect();
+        if stepped.len() != (n + 1) / 2 || stepped.iter().enumerate().any(|(i, x)| Some(x) != all.get(2 * i)) {
+            return fail("step_by(2) does not give every second item".to_string());
+        }
+        if mk().size_hint().0 > n || mk().size_hint().1.map(|u| u < n).unwrap_or(false) {
+            return fail(format!("size_hint() = {:?} but the iterator yields {} items", mk().size_hint(), n));
+        }
+        obs.count("adaptor_checks", 1);
     }
     Ok((k, excluded || ambiguous))
 }
@@ -212,7 +252,7 @@ fn oracle(case: &[u8], obs: &mut Obs) -> Result<(), String> {
             if align > usize::MAX as u64 {
                 return Ok(());
             }
-            with_endian!(spec, |e| compare(NoteIterator::new(e, class, align as usize, &data), &data, enc.le, align, obs, "NoteIterator::new"))?
+            with_endian!(spec, |e| compare(|| NoteIterator::new(e, class, align as usize, &data), &data, enc.le, align, obs, "NoteIterator::new"))?
         }
         1 => {
             // through a section of a complete file
@@ -229,8 +269,8 @@ fn oracle(case: &[u8], obs: &mut Obs) -> Result<(), String> {
             with_endian!(spec, |e| {
                 let file = open_as(e, &b.bytes).map_err(|er| format!("harness: generated file does not open: {}", err_name(&er)))?;
                 let sh = file.section_headers().ok_or("no section headers")?.get(i).map_err(|er| format!("shdr {}", err_name(&er)))?;
-                let it = file.section_data_as_notes(&sh).map_err(|er| format!("section_data_as_notes failed with {}", err_name(&er)))?;
-                compare(it, &b.bytes[off..off + len], enc.le, al, obs, "ElfBytes::section_data_as_notes")
+                file.section_data_as_notes(&sh).map_err(|er| format!("section_data_as_notes failed with {}", err_name(&er)))?;
+                compare(|| file.section_data_as_notes(&sh).unwrap(), &b.bytes[off..off + len], enc.le, al, obs, "ElfBytes::section_data_as_notes")
             })?
         }
         _ => {
@@ -245,8 +285,8 @@ fn oracle(case: &[u8], obs: &mut Obs) -> Result<(), String> {
             with_endian!(spec, |e| {
                 let file = open_as(e, &b.bytes).map_err(|er| format!("harness: generated file does not open: {}", err_name(&er)))?;
                 let ph = file.segments().ok_or("no segments")?.get(0).map_err(|er| format!("phdr {}", err_name(&er)))?;
-                let it = file.segment_data_as_notes(&ph).map_err(|er| format!("segment_data_as_notes failed with {}", err_name(&er)))?;
-                compare(it, &b.bytes[off..off + len], enc.le, al, obs, "ElfBytes::segment_data_as_notes")
+                file.segment_data_as_notes(&ph).map_err(|er| format!("segment_data_as_notes failed with {}", err_name(&er)))?;
+                compare(|| file.segment_data_as_notes(&ph).unwrap(), &b.bytes[off..off + len], enc.le, al, obs, "ElfBytes::segment_data_as_notes")
             })?
         }
     };
@@ -273,7 +313,7 @@ pub fn property() -> Property {
     Property {
         id: "C14",
         level: "exploration",
-        rule: "cases are (class, order, fixed/run-time spec, alignment in {0,1,2,4,8,16, 3..32, 2^31, 2^32, 2^63, 2^64-1, boundary/raw values}, 0..20 notes with namesz/descsz 0..40 covering every residue, GNU ABI-tag (16-byte descriptor; rarely a shorter one, which must not yield a typed tag) and build-id notes, names \"GNU\\0\"/\"GNU\"/non-UTF-8/with 0..3 trailing NULs, tail = exact | garbage | truncated at any byte of the last record | one corrupted size word, access path = NoteIterator::new | section of a generated file | PT_NOTE segment of a generated file); oracle = independent reference walker (12-byte header of three 32-bit words in file order for both classes, name, pad, desc, pad): polled through fuse() the iterator stays None after its first None; items up to the first None equal the reference list (typed variants for GNU notes, name/desc exact byte ranges pointer-checked, name_str = UTF-8 minus trailing NULs), iteration ends at the first record that does not fit, align 0 yields nothing. Non-trivial: >=2 notes compared and (a length not a multiple of the alignment, or big-endian, or alignment != 4); distinct by (data, align, path) hash.",
+        rule: "cases are (class, order, fixed/run-time spec, alignment in {0,1,2,4,8,16, 3..32, 2^31, 2^32, 2^63, 2^64-1, boundary/raw values}, 0..20 notes with namesz/descsz 0..40 covering every residue, GNU ABI-tag (16-byte descriptor; rarely a shorter one, which must not yield a typed tag) and build-id notes, names \"GNU\\0\"/\"GNU\"/non-UTF-8/with 0..3 trailing NULs, tail = exact | garbage | truncated at any byte of the last record | one corrupted size word, access path = NoteIterator::new | section of a generated file | PT_NOTE segment of a generated file); oracle = independent reference walker (12-byte header of three 32-bit words in file order for both classes, name, pad, desc, pad): polled through fuse() the iterator stays None after its first None; items up to the first None equal the reference list (typed variants for GNU notes, name/desc exact byte ranges pointer-checked, name_str = UTF-8 minus trailing NULs), iteration ends at the first record that does not fit, align 0 yields nothing; nth/skip/count/last/step_by/size_hint on fresh and partly consumed iterators agree with repeated next(). Non-trivial: >=2 notes compared and (a length not a multiple of the alignment, or big-endian, or alignment != 4); distinct by (data, align, path) hash.",
         assumptions: &["a record whose empty descriptor would start in padding beyond the data is ambiguous under 'does not fit' and is excluded (counted)", "GNU ABI-tag notes with a descriptor shorter than 16 bytes (only reachable through the corrupted-size tail) are outside the statement and excluded (counted)"],
         subs: vec![Sub::new("notes", oracle, 2200, 2_000_000, 40_000_000)],
         extras: vec![],
